@@ -56,10 +56,12 @@ impl Sess {
         std::fs::create_dir_all(&dir).unwrap();
         let chain: PathBuf = (0..depth).map(|k| format!("{}{k}", "d".repeat(seg))).collect();
         let mut docs = Vec::new();
-        for co in ["checkout-a", "checkout-b"] {
-            let d = dir.join(co).join(&chain);
+        // depth 0: two short paths of which one has the flattening's separator stand-in inside a segment
+        // (`p/a%b.txt` and `p/a/b.txt`)
+        for co in if depth == 0 { ["p/a%b.txt", "p/a/b.txt"] } else { ["checkout-a", "checkout-b"] } {
+            let d = if depth == 0 { dir.join(co).parent().unwrap().to_path_buf() } else { dir.join(co).join(&chain) };
             std::fs::create_dir_all(&d).unwrap();
-            let p = d.join("README.txt");
+            let p = if depth == 0 { dir.join(co) } else { d.join("README.txt") };
             std::fs::write(&p, DOC).unwrap();
             docs.push((format!("file://{}", p.to_string_lossy()), p));
         }
@@ -70,7 +72,7 @@ impl Sess {
             crate::dictionary_io::file_dict_name(&url).map(|p| p.to_string_lossy().to_string()).unwrap_or_default()
         }).collect();
         let mut s = Self { user_path: dir.join("user/dictionary.txt"), ls: Ls::new(&dir), dir, docs, evs: vec![json!({"ev": "Reset"}),
-            json!({"ev": "Deep", "path_bytes": plen, "name_bytes": names.iter().map(|n| n.len()).max().unwrap_or(0), "same_name": names[0] == names[1]})] };
+            json!({"ev": "Deep", "path_bytes": plen, "name_bytes": names.iter().map(|n| n.len()).max().unwrap_or(0), "same_name": names[0] == names[1], "percent_in_segment": depth == 0})] };
         s.boot();
         s
     }
@@ -285,6 +287,15 @@ pub fn main(a: &Args) {
                 for e in s.evs.drain(..) { out.emit(&e); }
                 let _ = std::fs::remove_dir_all(&s.dir);
             }
+        }
+        // (1c') two documents whose flattened paths coincide: `p/a%b.txt` and `p/a/b.txt`
+        for first in [1usize, 2] {
+            let mut s = Sess::new_deep(base.join(format!("s{n}")), 0, 0); n += 1;
+            s.observe();
+            s.add("file", W[0], first);
+            s.observe();
+            for e in s.evs.drain(..) { out.emit(&e); }
+            let _ = std::fs::remove_dir_all(&s.dir);
         }
         // (2) histories: adds (user / file, case variants, non-ASCII), restarts, a crash
         for _ in 0..nhist {
